@@ -8,6 +8,7 @@ import (
 	"os"
 	"path/filepath"
 	"sort"
+	"strconv"
 	"strings"
 
 	"golang.org/x/tools/go/ssa"
@@ -67,10 +68,147 @@ func (w *World) fnNames(fn *ssa.Function) []nameEntry {
 
 func localsFile() string { return filepath.Join(verifDir, "spec", "locals.json") }
 
+type loopEntry struct {
+	Kind  string `json:"k"` // range / for
+	Depth int    `json:"d"`
+	Over  string `json:"o,omitempty"` // type of the ranged-over expression
+	Sub   string `json:"s,omitempty"` // signature of the loops nested in this one
+}
+
+type recorded struct {
+	Vars  map[string][]nameEntry `json:"vars"`
+	Loops map[string][]loopEntry `json:"loops"`
+}
+
+// fnLoops: the loops of one function (nested function literals excluded: they are functions of their own) in source
+// order, which is the order the engine numbers them in. nil when the SSA form does not have one loop per statement.
+func (w *World) fnLoops(fn *ssa.Function) []loopEntry {
+	if fn.Pkg == nil || fn.Syntax() == nil {
+		return nil
+	}
+	pkg := w.ByPath[fn.Pkg.Pkg.Path()]
+	if pkg == nil || pkg.TypesInfo == nil {
+		return nil
+	}
+	var body *ast.BlockStmt
+	switch d := fn.Syntax().(type) {
+	case *ast.FuncDecl:
+		body = d.Body
+	case *ast.FuncLit:
+		body = d.Body
+	}
+	if body == nil {
+		return nil
+	}
+	qual := func(p *types.Package) string { return p.Name() }
+	var out []loopEntry
+	var walk func(n ast.Node, depth int) string
+	walk = func(n ast.Node, depth int) string {
+		sig := ""
+		ast.Inspect(n, func(c ast.Node) bool {
+			if c == n || c == nil {
+				return true
+			}
+			switch l := c.(type) {
+			case *ast.FuncLit:
+				return false
+			case *ast.RangeStmt:
+				e := loopEntry{Kind: "range", Depth: depth}
+				if t := pkg.TypesInfo.TypeOf(l.X); t != nil {
+					e.Over = types.TypeString(t, qual)
+				}
+				i := len(out)
+				out = append(out, e)
+				out[i].Sub = walk(l.Body, depth+1)
+				sig += "R<" + e.Over + ">(" + out[i].Sub + ")"
+				return false
+			case *ast.ForStmt:
+				i := len(out)
+				out = append(out, loopEntry{Kind: "for", Depth: depth})
+				out[i].Sub = walk(l.Body, depth+1)
+				sig += "F(" + out[i].Sub + ")"
+				return false
+			}
+			return true
+		})
+		return sig
+	}
+	walk(body, 0)
+	heads := map[*ssa.BasicBlock]bool{}
+	for _, b := range fn.Blocks {
+		for _, sc := range b.Succs {
+			if sc.Dominates(b) {
+				heads[sc] = true
+			}
+		}
+	}
+	if len(heads) != len(out) {
+		return nil
+	}
+	return out
+}
+
+// alignLoops maps recorded loop ordinals to current ones (1-based). Loops with identical signatures anchor the alignment;
+// a gap with as many loops on both sides, pairwise of the same kind and depth, is matched in order.
+func alignLoops(base, cur []loopEntry) map[int]int {
+	n, m := len(base), len(cur)
+	l := make([][]int, n+1)
+	for i := range l {
+		l[i] = make([]int, m+1)
+	}
+	for i := n - 1; i >= 0; i-- {
+		for j := m - 1; j >= 0; j-- {
+			if base[i] == cur[j] {
+				l[i][j] = l[i+1][j+1] + 1
+			} else if l[i+1][j] >= l[i][j+1] {
+				l[i][j] = l[i+1][j]
+			} else {
+				l[i][j] = l[i][j+1]
+			}
+		}
+	}
+	out := map[int]int{}
+	gap := func(i0, i1, j0, j1 int) {
+		if i1-i0 != j1-j0 {
+			return
+		}
+		for k := 0; k < i1-i0; k++ {
+			if base[i0+k].Kind != cur[j0+k].Kind || base[i0+k].Depth != cur[j0+k].Depth {
+				return
+			}
+		}
+		for k := 0; k < i1-i0; k++ {
+			out[i0+k+1] = j0 + k + 1
+		}
+	}
+	i, j, gi, gj := 0, 0, 0, 0
+	for i < n && j < m {
+		if base[i] == cur[j] {
+			gap(gi, i, gj, j)
+			out[i+1] = j + 1
+			i++
+			j++
+			gi, gj = i, j
+		} else if l[i+1][j] >= l[i][j+1] {
+			i++
+		} else {
+			j++
+		}
+	}
+	gap(gi, n, gj, m)
+	return out
+}
+
 // writeLocals records the declared variables of every function under contract (run by hand after contracts change).
 func writeLocals(w *World, ss *SpecSet) error {
 	out := map[string][]nameEntry{}
-	for k := range ss.Contracts {
+	loops := map[string][]loopEntry{}
+	for k, ct := range ss.Contracts {
+		if fn, ok := w.Funcs[k]; ok && len(ct.Loops) > 0 {
+			if ls := w.fnLoops(fn); ls != nil {
+				loops[k] = ls
+			}
+		}
 		top := k
 		if i := strings.Index(k[strings.LastIndex(k, "/")+1:], "$"); i >= 0 {
 			top = k[:strings.LastIndex(k, "/")+1+i]
@@ -79,7 +217,7 @@ func writeLocals(w *World, ss *SpecSet) error {
 			out[top] = w.fnNames(fn)
 		}
 	}
-	b, err := json.MarshalIndent(out, "", " ")
+	b, err := json.MarshalIndent(recorded{Vars: out, Loops: loops}, "", " ")
 	if err != nil {
 		return err
 	}
@@ -164,10 +302,11 @@ func healRenames(w *World, ss *SpecSet) []string {
 	if err != nil {
 		return nil
 	}
-	var rec map[string][]nameEntry
-	if json.Unmarshal(b, &rec) != nil {
+	var all recorded
+	if json.Unmarshal(b, &all) != nil {
 		return nil
 	}
+	rec := all.Vars
 	var notes []string
 	keys := make([]string, 0, len(ss.Contracts))
 	for k := range ss.Contracts {
@@ -176,6 +315,25 @@ func healRenames(w *World, ss *SpecSet) []string {
 	sort.Strings(keys)
 	cache := map[string][2]map[string]string{}
 	for _, k := range keys {
+		// loops renumbered by a loop that was added, removed or moved out of the function
+		if base, ok := all.Loops[k]; ok {
+			if fn, ok := w.Funcs[k]; ok {
+				if cur := w.fnLoops(fn); cur != nil {
+					mp := alignLoops(base, cur)
+					moved := false
+					for a, c := range mp {
+						if a != c {
+							moved = true
+						}
+					}
+					if moved || len(base) != len(cur) {
+						if desc := ss.Contracts[k].remapLoops(mp); desc != "" {
+							notes = append(notes, fmt.Sprintf("contract of %s read with renumbered loops: %s", k, desc))
+						}
+					}
+				}
+			}
+		}
 		top := k
 		if i := strings.Index(k[strings.LastIndex(k, "/")+1:], "$"); i >= 0 {
 			top = k[:strings.LastIndex(k, "/")+1+i]
@@ -324,4 +482,106 @@ func (ct *Contract) rename(inner, outer map[string]string, ss *SpecSet) bool {
 		cl(cs)
 	}
 	return changed
+}
+
+// remapLoops renumbers the loop clauses (and the #i<k> references) of a contract; a recorded loop without a current
+// counterpart keeps a number no loop has, so its clauses are reported as dangling.
+func (ct *Contract) remapLoops(mp map[int]int) string {
+	var desc []string
+	tr := func(k int) int {
+		if c, ok := mp[k]; ok {
+			return c
+		}
+		return 1000 + k
+	}
+	nl := map[int]*LoopSpec{}
+	var ks []int
+	for k := range ct.Loops {
+		ks = append(ks, k)
+	}
+	sort.Ints(ks)
+	for _, k := range ks {
+		nl[tr(k)] = ct.Loops[k]
+		if tr(k) != k {
+			if tr(k) >= 1000 {
+				desc = append(desc, fmt.Sprintf("%d→(gone)", k))
+			} else {
+				desc = append(desc, fmt.Sprintf("%d→%d", k, tr(k)))
+			}
+		}
+	}
+	if len(desc) == 0 {
+		return ""
+	}
+	ct.Loops = nl
+	var rn func(e SExpr) SExpr
+	list := func(es []SExpr) []SExpr {
+		out := make([]SExpr, len(es))
+		for i, x := range es {
+			out[i] = rn(x)
+		}
+		return out
+	}
+	rn = func(e SExpr) SExpr {
+		switch n := e.(type) {
+		case *SHash:
+			if strings.HasPrefix(n.Name, "i") && len(n.Name) > 1 {
+				if k, err := strconv.Atoi(n.Name[1:]); err == nil {
+					return &SHash{Name: fmt.Sprintf("i%d", tr(k))}
+				}
+			}
+			return n
+		case *SUnary:
+			return &SUnary{Op: n.Op, X: rn(n.X)}
+		case *SBinary:
+			return &SBinary{Op: n.Op, X: rn(n.X), Y: rn(n.Y)}
+		case *SCall:
+			return &SCall{Fun: n.Fun, Args: list(n.Args)}
+		case *SIndex:
+			return &SIndex{X: rn(n.X), I: rn(n.I)}
+		case *SSlice:
+			out := &SSlice{X: rn(n.X)}
+			if n.Lo != nil {
+				out.Lo = rn(n.Lo)
+			}
+			if n.Hi != nil {
+				out.Hi = rn(n.Hi)
+			}
+			return out
+		case *SField:
+			return &SField{X: rn(n.X), Name: n.Name}
+		case *SQuant:
+			out := &SQuant{Forall: n.Forall, Vars: n.Vars, Body: rn(n.Body)}
+			for _, t := range n.Trig {
+				out.Trig = append(out.Trig, list(t))
+			}
+			return out
+		case *SCond:
+			return &SCond{C: rn(n.C), A: rn(n.A), B: rn(n.B)}
+		case *STypeAssert:
+			return &STypeAssert{X: rn(n.X), Ty: n.Ty, Test: n.Test}
+		}
+		return e
+	}
+	cl := func(cs []Clause) {
+		for i := range cs {
+			if cs[i].E != nil {
+				cs[i].E = rn(cs[i].E)
+			}
+		}
+	}
+	cl(ct.AtReturn)
+	for _, l := range ct.Loops {
+		cl(l.Invariants)
+		cl(l.Asserts)
+		if l.Decreases != nil && l.Decreases.E != nil {
+			l.Decreases.E = rn(l.Decreases.E)
+		}
+	}
+	for _, m := range []map[string][]Clause{ct.After, ct.Before, ct.CoverBefore} {
+		for _, cs := range m {
+			cl(cs)
+		}
+	}
+	return strings.Join(desc, ", ")
 }
